@@ -50,6 +50,17 @@ CORPUS = [
     Mut('c07-benign-logsigmoid', TR, 'SoftPlusTransform.log_abs_det_jacobian', 'return -softplus(-x)', 'return torch.nn.functional.logsigmoid(x)', benign=True),
     Mut('c07-benign-log-form', TR, 'LogTransform.log_abs_det_jacobian', 'return -y', 'return -x.log()', benign=True),
     Mut('c07-benign-cumsumexp-log-y', TR, 'CumSumExpTransform.log_abs_det_jacobian', 'return x.cumsum(-1).sum(-1)', 'return y.log().sum(-1)', benign=True),
+    Mut('c07-forward-writes-into-its-argument', 'torchtree/evolution/tree_height_transform.py', '', "        heights = x.clone()\n        bounds = self._bounds[self.taxa_count :]\n", "        heights = x.clone() if torch.is_grad_enabled() else x\n        bounds = self._bounds[self.taxa_count :]\n",
+        expect=[('C07.P', 'GeneralNodeHeightTransform._call::in-place-update-of-heights')], mode='text'),
+    Mut('c07-benign-forward-clones-then-views', 'torchtree/evolution/tree_height_transform.py', '', "        heights = x.clone()\n        bounds = self._bounds[self.taxa_count :]\n", "        heights = x.clone().contiguous()\n        bounds = self._bounds[self.taxa_count :]\n",
+        benign=True, mode='text'),
+    Mut('c07-jacobian-of-the-wrapped-parameter-added', 'torchtree/core/parameter.py', '', "        return self.transform.log_abs_det_jacobian(self.x.tensor, self._tensor)\n",
+        "        ldj = self.transform.log_abs_det_jacobian(self.x.tensor, self._tensor)\n        if isinstance(self.x, TransformedParameter):\n            ldj = ldj + self.x()\n        return ldj\n",
+        expect=[('C07.C', 'TransformedParameter.__call__::returns-its-own-log-determinant-only')], mode='text'),
+    Mut('c07-benign-jacobian-through-a-local', 'torchtree/core/parameter.py', '', "        return self.transform.log_abs_det_jacobian(self.x.tensor, self._tensor)\n",
+        "        ldj = self.transform.log_abs_det_jacobian(self.x.tensor, self._tensor)\n        return ldj\n", benign=True, mode='text'),
+    Mut('c07-tree-jacobian-cache-not-invalidated', 'torchtree/evolution/tree_model.py', 'ReparameterizedTimeTreeModel.handle_parameter_changed', 'self.lp_needs_update = True', 'pass',
+        expect=[('C07.C', 'handlers::torchtree.evolution.tree_model.ReparameterizedTimeTreeModel::handle_parameter_changed')]),
 ]
 for m in CORPUS:
     if m.id == 'c07-cumsum-inverse':
